@@ -3,13 +3,17 @@ set_option linter.unusedSimpArgs false
 set_option linter.unusedVariables false
 /-!
 Lemmas shared by C05 and C06: the per-object ciphers of Algorithm 1 / 1.A round-trip
-(RC4 unconditionally, AES-CBC + PKCS#7 under the explicit hypothesis `AesOK`).
+(RC4 and AES-CBC + PKCS#7 unconditionally: `AesOK` is discharged by `aesOK`).
 -/
 namespace OxiVerif.C05
 open OxiVerif.Crypto OxiVerif.C23
 
-/-- the trusted fact about the FIPS-197 transcription (see C23) -/
+/-- the fact about the FIPS-197 transcription the AES lemmas below rest on -/
 def AesOK : Prop := ∀ key ks, keySched key = some ks → BlockInverse (aesEncBlock ks) (aesDecBlock ks)
+
+/-- … which is a theorem: `Lemmas/C23Aes.lean` proves the AES block function a permutation for
+every round-key list (S-box tables, ShiftRows, MixColumns, AddRoundKey). -/
+theorem aesOK : AesOK := aes_ok
 
 theorem keySched_isSome (key : Bytes) (h : key.length = 16 ∨ key.length = 32) : ∃ ks, keySched key = some ks := by
   unfold keySched
